@@ -24,7 +24,10 @@ RULE = ('Four families. fault: contractive BlockSpec with an injected fault sche
         'with q>=0.5 and >=4 variables; every invalid case. Distinct: sha1 of the spec.')
 ASSUMPTIONS = [
     'acceptable failure classes: ValueError family (ConvergenceError, LogicError) and ArithmeticError family',
-    'sweeps are counted by a user function registered through the public AddFunction API and by the public step trace',
+    'sweeps are counted by a user function registered through the public AddFunction API and by the public step trace; '
+    'the counting function aborts a solve that is 10 sweeps past its own cap (reported as sweeps-exceed-cap), and every case '
+    'of the fault/contraction families runs under a 120 s wall-clock watchdog (C11/no-termination): bounded work is what the '
+    'property states, so a solve that does not come back is a violation here, not an inconclusive case',
     'after a failure in period f the already solved periods are compared, value for value, with a solve of horizon f-1',
 ]
 
